@@ -35,7 +35,7 @@ func annEncodeFns(w *World) []*ssa.Function {
 
 func init() {
 	register("C12", propMeta{
-		Explanation: "Structural preconditions of 'HNSW never hides live vectors': in the layer search, pushes onto the exploration heap do not depend on the soft-delete state while pushes onto the result heap are gated by ¬DEL of the pushed id; the comparison shapes of termination / admission / eviction; the node is registered before it is linked (or pruning does not skip unknown ids); a node inserted without any layer-0 link becomes the entry point, unconditionally; neighbour selection and pruning keep the ascending prefix; heap orders; Flush filters edges by ¬DEL(target) before deleting nodes, re-elects a non-deleted entry point and always clears; the empty answer is given only for an empty index; re-add purges before any write (C06.REVIVE for hnsw).",
+		Explanation: "Structural preconditions of 'HNSW never hides live vectors': in the layer search, pushes onto the exploration heap do not depend on the soft-delete state while pushes onto the result heap are gated by ¬DEL of the pushed id; the comparison shapes of termination / admission / eviction; the node is registered before it is linked (or pruning does not skip unknown ids); a node inserted without any layer-0 link becomes the entry point, unconditionally; neighbour selection and pruning keep the ascending prefix; heap orders; Flush filters edges by ¬DEL(target) before deleting nodes, re-elects a non-deleted entry point and always clears; the empty answer is given only for an empty index; re-add purges before any write (C06.REVIVE for hnsw); the edge budget handed to neighbour selection and pruning is decided per iteration of the layer loop: 2·M exactly when that loop's own layer counter is 0, M above (BUDGET).",
 		NotDecided:  "exactness for ≤ 2M vectors and bottom-layer reachability as graph properties of concrete histories (observed: 'keep the M nearest' pruning and Flush can disconnect vertices — DESIGN section 5); only their structural preconditions are decided.",
 		Assumptions: []string{"container/heap keeps the Less-minimum at index 0", "roaring.Bitmap contracts"},
 	}, func(r *Run) {
